@@ -2,6 +2,7 @@ import argparse
 import importlib
 import json
 import os
+import subprocess
 import sys
 import traceback
 
@@ -38,13 +39,15 @@ def main():
         tb = traceback.format_exc()
         traceback.print_exc()
         lib = os.path.join(core.REPO, 'src', 'peptacular')
-        if lib in tb:
-            # the library itself raised inside a stage that never raises on the unchanged tree: the check could not be
-            # completed, so the property is no longer shown to hold; report it (no concrete input) instead of crashing
+        if lib in tb or not isinstance(sys.exc_info()[1], (OSError, MemoryError, subprocess.SubprocessError)):
+            # a stage that never raises on the unchanged tree was aborted (by the library itself, or by the harness /
+            # translator meeting source or attributes it can no longer read): the check could not be completed, so the
+            # property is no longer shown to hold; report it (no concrete input) instead of crashing. Only operating-system
+            # level failures (OSError, MemoryError, subprocess errors) and InfraError remain infrastructure exits.
             os.makedirs(core.REPLAY, exist_ok=True)
             path = os.path.join(core.REPLAY, f'{pid}-stage-exception.json')
-            json.dump({'property': pid, 'kind': 'unproved', 'note': 'a check stage was aborted by an exception raised inside '
-                       'the library; the correspondence / oracle of this property could not be completed', 'traceback': tb[-6000:]},
+            json.dump({'property': pid, 'kind': 'unproved', 'note': 'a check stage was aborted by an exception; the translation / correspondence / oracle of this property '
+                       'could not be completed against this tree', 'traceback': tb[-6000:]},
                       open(path, 'w'), indent=1)
             print(f'VIOLATION property={pid} replay={path} no-failing-input-found')
             sys.exit(1)
